@@ -294,6 +294,23 @@ def fam_revoked(rng):
     return out
 
 
+def fam_selfmint(rng):
+    """A wallet pays itself and then spends what it would have if the self transfer counted as income only: the spend is an
+    overdraft and must be dropped - before and after the self transfer has been checkpointed."""
+    out = []
+    for depth in (1, 2):
+        # t1: A+6, t4: A->A 3, t6: A->B 9 (A holds 6)
+        out.append(("single", depth, [G(), P("N1", "t1", 2), P("N1", "t4", 3), P("N1", "t6", 4), P("N1", "t2", 5), P("N1", "t5", 6),
+                                      {"op": "balance", "n": "N1", "wl": "A"}, {"op": "balance", "n": "N1", "wl": "B"}]))
+        out.append(("single", depth, [G(), P("N1", "t1", 2), P("N1", "t4", 3), P("N1", "t2", 4), P("N1", "t5", 5), {"op": "truncate", "n": "N1"},
+                                      {"op": "truncate", "n": "N1"}, P("N1", "t6", 6), P("N1", "t3", 7), {"op": "balance", "n": "N1", "wl": "A"}]))
+        # the same through gossip: the overdraft sealed by another node, then a child
+        out.append(("single", depth, [G(), P("N1", "t1", 2), P("N1", "t4", 3),
+                                      {"op": "craft", "s": "N2", "t": "t6", "l": 3, "r": 3, "w": 3, "id": 4}, D("N1", 4),
+                                      {"op": "craft", "s": "N2", "t": "t5", "l": 4, "r": 4, "w": 4, "id": 5}, D("N1", 5), P("N1", "t2", 6)]))
+    return out
+
+
 def fam_weights(rng):
     """A delivered vertex that claims a weight far above its parents' moves the weight window: tips below the window
     become invalid (and are dropped by the next proposal), deliveries below it are refused.  Around the boundary
@@ -620,14 +637,14 @@ ALL_EVENTS = ["History", "BalanceRaced", "Reset", "Genesis", "ProposePre", "Prop
 PROPS = {
     "C01": dict(strict=["ProposeCommit", "DeliverCommit", "Truncate", "Wedged"],
                 inv=["TypeOK"], prop=["C01_NoOverdraftConfirmed", "C01_OnlyTipsDropped", "C03_Reproposable"],
-                gens=[("single", 1.0)], fams=["truncation", "concurrent", "weights", "cancel", "revoked"], mc="single"),
+                gens=[("single", 1.0)], fams=["truncation", "concurrent", "weights", "cancel", "revoked", "selfmint"], mc="single"),
     "C02": dict(strict=["Wedged"], inv=["C02_ModuloF10"], prop=[],
-                gens=[("two", 0.5), ("twosingle", 0.3), ("drain", 0.2)], fams=["doublespend", "truncation", "revoked_valid"], mc="two"),
+                gens=[("two", 0.5), ("twosingle", 0.3), ("drain", 0.2)], fams=["doublespend", "truncation", "revoked_valid", "selfmint"], mc="two"),
     "C03": dict(strict=["ProposePre", "ProposeCommit", "DeliverPre", "DeliverCommit", "TickPop", "Wedged"],
                 inv=["C03_UniqueTrx", "C03_IndexExact", "TypeOK"], prop=["C03_Reproposable"],
                 gens=[("single", 0.7), ("twosingle", 0.3)], fams=["concurrent", "truncation", "forged", "load"], mc="single"),
     "C06": dict(strict=["Balance", "Wedged"], inv=[], prop=[],
-                gens=[("single", 0.4), ("drain", 0.3), ("twosingle", 0.3)], fams=["truncation", "load"], mc="single"),
+                gens=[("single", 0.4), ("drain", 0.3), ("twosingle", 0.3)], fams=["truncation", "load", "selfmint"], mc="single"),
     "C07": dict(strict=["Truncate", "TruncateCancelled", "ReadTrx", "ReadVertex", "ProposePre", "DeliverPre", "Balance", "Wedged"],
                 inv=["ReadsOK", "C03_UniqueTrx"], prop=["C07_T"],
                 gens=[("single", 0.5), ("drain", 0.5)], fams=["truncation", "trunc_retry"], mc="single"),
@@ -667,6 +684,7 @@ FAMS = {
     "cancel": lambda rng, tier: fam_cancel(rng),
     "forged": lambda rng, tier: fam_forged(rng),
     "revoked": lambda rng, tier: fam_revoked(rng),
+    "selfmint": lambda rng, tier: fam_selfmint(rng),
     # for C02: only the behaviours in which nothing invalid is confirmed under the exemption
     "revoked_valid": lambda rng, tier: fam_revoked(rng)[::2],
     "trunc_retry": lambda rng, tier: fam_trunc_retry(rng),
